@@ -1,6 +1,7 @@
 package main
 
 import (
+	"go/types"
 	"context"
 	"encoding/json"
 	"flag"
@@ -352,7 +353,8 @@ type checkReport struct {
 
 // propertyFunctions: functions whose contracts carry a clause tagged with the
 // property, plus the cone of (non-assumed) contracts those proofs rely on.
-func (eng *Engine) checkProperty(prop string, timeoutMs int, all bool, verbose bool) *checkReport {
+func (eng *Engine) checkProperty(prop string, timeoutMs int, all_ bool, verbose bool) *checkReport {
+	all := all_
 	rep := &checkReport{Prop: prop, eng: eng, KnownText: map[string]string{}, dischargedGroups: map[string]bool{}, failedGroups: map[string]bool{}, byBackend: map[string]int{}}
 	todo := []string{}
 	seen := map[string]bool{}
@@ -365,6 +367,31 @@ func (eng *Engine) checkProperty(prop string, timeoutMs int, all bool, verbose b
 	sort.Strings(keys)
 	todo = append(todo, keys...)
 	checkLocks := prop == "C18"
+	sweepOnly := map[string]bool{}
+	if checkLocks {
+		// C18 is a sweep: every function of both packages is executed for its
+		// safety, lockset and lock-order obligations. Functions that carry no
+		// C18 clause contribute only those kinds.
+		var all []string
+		for k, fn := range eng.funcs {
+			if len(fn.Blocks) == 0 || fn.Synthetic != "" {
+				continue
+			}
+			if c := eng.specs.Funcs[k]; c != nil && (c.Assumed || c.HasTag(prop)) {
+				continue
+			}
+			if strings.HasSuffix(eng.fset.Position(fn.Pos()).Filename, "/testing.go") {
+				continue // test helpers compiled into the package
+			}
+			if !all_ && !eng.touchesSharedState(fn) {
+				continue // quick tier: only functions that lock, close channels or touch guarded fields
+			}
+			all = append(all, k)
+			sweepOnly[k] = true
+		}
+		sort.Strings(all)
+		todo = append(todo, all...)
+	}
 	var specFail []*Obligation
 	tExec := time.Now()
 	defer func() {
@@ -416,6 +443,16 @@ func (eng *Engine) checkProperty(prop string, timeoutMs int, all bool, verbose b
 			if uc := eng.specs.Funcs[u]; uc != nil && !uc.Assumed && !seen[u] {
 				todo = append(todo, u)
 			}
+		}
+		if sweepOnly[k] {
+			var keep []*Obligation
+			for _, o := range res.Obls {
+				switch o.Kind {
+				case "safety", "lockset", "lock":
+					keep = append(keep, o)
+				}
+			}
+			res.Obls = keep
 		}
 		rep.All = append(rep.All, res.Obls...)
 	}
@@ -499,6 +536,37 @@ func (eng *Engine) checkProperty(prop string, timeoutMs int, all bool, verbose b
 		rep.Failed = append(rep.Failed, o)
 	}
 	return rep
+}
+
+// touchesSharedState: the function itself takes or releases a lock, closes a
+// channel, or addresses a field declared guarded_by.
+func (eng *Engine) touchesSharedState(fn *ssa.Function) bool {
+	guarded := map[string]bool{}
+	for _, g := range eng.specs.Guards {
+		for _, f := range g.Fields {
+			guarded[strings.TrimSuffix(f, "[]")] = true
+		}
+	}
+	for _, b := range fn.Blocks {
+		for _, in := range b.Instrs {
+			switch x := in.(type) {
+			case *ssa.FieldAddr:
+				t := x.X.Type().Underlying().(*types.Pointer).Elem()
+				if st, ok := t.Underlying().(*types.Struct); ok && guarded[typeKey(t)+"."+st.Field(x.Field).Name()] {
+					return true
+				}
+			case ssa.CallInstruction:
+				c := x.Common()
+				if bi, ok := c.Value.(*ssa.Builtin); ok && bi.Name() == "close" {
+					return true
+				}
+				if sc := c.StaticCallee(); sc != nil && strings.HasPrefix(sc.String(), "(*sync.") {
+					return true
+				}
+			}
+		}
+	}
+	return false
 }
 
 func writeLedger(prop string, rep *checkReport) {
